@@ -107,10 +107,11 @@ class TapeRecorder(object):
         """
         Discards currently active recording process
         """
-        if self._active_recording is not None:
+        recording = self._active_recording
+        if recording is not None:
             _logger.info(
-                u'Recording with id {} was discarded'.format(self._active_recording.id))
-            self.tape_cassette.abort_recording(self._active_recording)
+                u'Recording with id {} was discarded'.format(recording.id))
+            self.tape_cassette.abort_recording(recording)
             self._reset_active_recording()
 
     def force_sample_recording(self):
@@ -184,6 +185,21 @@ class TapeRecorder(object):
         _logger.debug(u'Recording data for recording id {} under key {}'.format(self._active_recording.id, key))
         self._active_recording[key] = data
 
+    def _record_interception(self, key, data):
+        """
+        Puts intercepted data under given key in the current recording, does nothing if the recording was discarded
+        while the interception was in flight (by the intercepted function itself or by another thread)
+        :param key: Data key
+        :type key: basestring
+        :param data: Data to record (it needs to be serializable)
+        :type data: Any
+        """
+        recording = self._active_recording
+        if recording is None:
+            return
+        _logger.debug(u'Recording data for recording id {} under key {}'.format(recording.id, key))
+        recording[key] = data
+
     def _assert_recording(self):
         """
         Assert there is active recording
@@ -225,11 +241,8 @@ class TapeRecorder(object):
             self._playback_outputs.append(Output(interception_key, value))
             return
 
-        # Recording is discarded
-        if self._active_recording is None:
-            return
-
-        self._record_data(interception_key, value)
+        # Does nothing if the recording is discarded
+        self._record_interception(interception_key, value)
 
     def enable_recording(self):
         """
@@ -842,10 +855,12 @@ class TapeRecorder(object):
             except Exception as ex:
                 if interception_key is not None:
                     # Record exception marking it as exception so we know to throw on playback
-                    self._record_data(interception_key, {'exception': ex})
+                    self._record_interception(interception_key, {'exception': ex})
                 raise
 
-        if interception_key is not None:
+        recording_parameters = self._active_recording_parameters
+        # No parameters means the recording was discarded while the intercepted function was running
+        if interception_key is not None and recording_parameters is not None:
             try:
                 recorded_result = data_handler.prepare_input_for_recording(interception_key, result, args, kwargs) \
                     if data_handler else result
@@ -858,7 +873,7 @@ class TapeRecorder(object):
                 self.discard_recording()
                 return result
 
-            if self._active_recording_parameters.copy_data_on_intercepion:
+            if recording_parameters.copy_data_on_intercepion:
                 try:
                     recorded_result = pickle_copy(recorded_result)
                 except Exception as ex:
@@ -866,7 +881,7 @@ class TapeRecorder(object):
                         type(recorded_result), repr(ex)))
 
             # Record result
-            self._record_data(interception_key, {'value': recorded_result})
+            self._record_interception(interception_key, {'value': recorded_result})
 
         return result
 
